@@ -10,19 +10,25 @@ import common
 def main():
     os.makedirs(common.WORK, exist_ok=True)
     common.ensure_parser()
-    ok, log = common.build_coq()
+    # Full .vo build of the whole development.  `make -k`: a proof file that no longer checks must fail
+    # the check of the property it belongs to (every check rebuilds and re-checks its own dependency
+    # closure and reports a broken obligation), not take the other properties' checks down with it.
+    ok, log = common.build_coq(keep_going=True)
     if not ok:
         print(log)
-        sys.exit("Coq build failed")
+        print("WARNING: some Coq files did not build; the checks of the affected properties will report it")
     bad = common.gate()
     if bad:
         print("\n".join(bad))
-        sys.exit("gate failed")
+        print("WARNING: gate failed; the checks of the affected properties will report it")
     for d in sorted(os.listdir(common.COQ)):
         if os.path.exists(os.path.join(common.COQ, d, "Extract.v")):
-            common.build_ocaml(d)
-            print("built extracted model", d)
-    print("setup ok")
+            try:
+                common.build_ocaml(d)
+                print("built extracted model", d)
+            except Exception as e:
+                print("WARNING: extracted model", d, "did not build:", str(e)[-500:])
+    print("setup ok" if ok and not bad else "setup finished with warnings")
 
 
 if __name__ == "__main__":
